@@ -46,6 +46,7 @@ var (
 
 type unit struct {
 	dir, path string
+	as        string // directory the overlay entries are keyed by (default: dir)
 }
 
 func main() {
@@ -61,8 +62,11 @@ func main() {
 	instrumented := map[string]bool{}
 	for _, a := range flag.Args() {
 		u := unit{dir: a}
-		if i := strings.Index(a, "="); i >= 0 {
-			u.dir, u.path = a[:i], a[i+1:]
+		if parts := strings.Split(a, "="); len(parts) >= 2 {
+			u.dir, u.path = parts[0], parts[1]
+			if len(parts) >= 3 {
+				u.as = parts[2]
+			}
 		}
 		units = append(units, u)
 		if u.path != "" {
@@ -172,8 +176,28 @@ func instrumentDir(u unit, inst map[string]bool, replace map[string]string) ([]s
 		if err := os.WriteFile(out, src, 0o644); err != nil {
 			return nil, err
 		}
-		abs, _ := filepath.Abs(filepath.Join(u.dir, names[i]))
+		keyDir := u.dir
+		if u.as != "" {
+			keyDir = u.as
+		}
+		abs, _ := filepath.Abs(filepath.Join(keyDir, names[i]))
 		replace[abs] = out
+	}
+	if u.as != "" {
+		// files present in the overlaid directory but absent from the source are deleted
+		have := map[string]bool{}
+		for _, n := range names {
+			have[n] = true
+		}
+		if ents, err := os.ReadDir(u.as); err == nil {
+			for _, e := range ents {
+				n := e.Name()
+				if !e.IsDir() && strings.HasSuffix(n, ".go") && !strings.HasSuffix(n, "_test.go") && !have[n] {
+					abs, _ := filepath.Abs(filepath.Join(u.as, n))
+					replace[abs] = ""
+				}
+			}
+		}
 	}
 	return notes, nil
 }
